@@ -31,7 +31,7 @@ RULE = ("states on dA (x) dB, dA,dB in 2..4 (unequal allowed), from the seeded g
         "amplitudes, integer weights; optionally mixed with the maximally mixed state, rescaled by a power of two), isotropic and Werner states at rational "
         "parameters on both sides of the PPT threshold, random rational mixed states of every rank, (1-eps)*separable + eps*entangled, and threshold states "
         "(1-t) I/D + t*sigma with lambda_min of the partial transpose placed at +-1e-2 .. +-1e-9 around -tol; x function x call form (sys 1/2; dim list / ndarray / "
-        "[d] / float / int / omitted; tol None/1e-10/1e-6/1e-3; level 1/2; ppt flag). The instance is the exact dyadic image of the float matrix. "
+        "[d] / float / int / omitted, each form also on unequal dimensions in every run; tol None/1e-10/1e-6/1e-3; level 1/2; ppt flag). The instance is the exact dyadic image of the float matrix. "
         "non-trivial: is_ppt/is_npt - certified interval clear of -tol by 1e-9 and the state is not maximally mixed; is_separable - the oracle applies "
         "(separable by construction with >= 1 term, or certified lambda_min <= -1e-6, or dA*dB <= 6 with a decided PPT verdict, or an invariance pair whose members "
         "did not both raise); in_separable_ball - relative margin >= 1e-9 from the boundary; has_symmetric_extension - separable by construction or NPT by margin. "
@@ -915,6 +915,9 @@ def run(ctx, model_ok=True):
         for sys_ in (1, 2):
             calls.append((sys_, forms[int(rng.integers(len(forms)))], [None, None, 1e-10, 1e-6, 1e-3][int(rng.integers(5))]))
         calls.append((2, "list", None))
+        if dA != dB:
+            # every documented form of the dim argument on unequal dimensions, by index (no draw): scalar dA (int / float), [dA], ndarray
+            calls.append((1 + i % 2, ["int", "float", "list1", "ndarray"][i % 4], None))
         if fam == "threshold":
             calls += [(int(rng.integers(1, 3)), "list", t) for t in (1e-10, 1e-6, 1e-3)]
         T("ppt", inst=inst, calls=calls)
@@ -1001,6 +1004,8 @@ def run(ctx, model_ok=True):
         if (dA, dB) == (2, 2):
             calls.append((2, "list", False))
             calls.append((1, "none", False))
+        if dA != dB and (1, ["int", "ndarray", "list"][i % 3], True) not in calls:
+            calls.append((1, ["int", "ndarray", "list"][i % 3], True))   # scalar dA / ndarray / list on unequal dimensions, by index (no draw)
         T("symext", inst=inst, calls=calls)
     for inst in corpus(rng)[:1] + [gen_sepmix(rng, 3, 3, 1, False, mix_id=(1, 1))]:
         T("symext", inst=inst, calls=[(2, "none", True), (1, "none", True)])
